@@ -13,6 +13,9 @@ import simple_parsing
 from simple_parsing.helpers import field as sp_field
 
 
+ENUM_MIXINS = {"Level": str, "Prio": int}
+
+
 class Universe:
     """Classes and enums of one case (fresh objects per case: no cross-case registry leakage)."""
 
@@ -24,7 +27,8 @@ class Universe:
     def enum(self, name: str, members: list[str], values: list | None = None):
         if name not in self.enums:
             vals = values if values is not None else list(range(len(members)))
-            self.enums[name] = enum.Enum(name, dict(zip(members, vals)))
+            # mixed-in enums (class X(str, Enum) / IntEnum): members ARE str / int instances as well
+            self.enums[name] = enum.Enum(name, dict(zip(members, vals)), type=ENUM_MIXINS.get(name))
         return self.enums[name]
 
     def ty(self, t: dict):
